@@ -338,5 +338,9 @@ Lemma decode_code_b2b c code ks d : decode_code c code ks = OK d ->
 Proof.
   unfold decode_code. cbv zeta. intros H.
   repeat dmatch H. inversion H; subst d. cbn [cd_blocks cd_type cd_addargs].
-  Show.
-Abort.
+  match goal with B : bytes_to_blocks _ _ _ _ _ _ _ _ _ _ _ = OK _ |- _ => rename B into B' end.
+  do 3 eexists. split; [exact B'|].
+  match goal with R : match filter _ FN_FLAGS with _ => _ end = OK (?o, _) |- _ =>
+    clear - R; repeat dmatch R; inversion R; subst; cbn [doc_consistent fn_doc]; try exact I; reflexivity
+  end.
+Qed.
